@@ -113,6 +113,18 @@ def _transform_matrix(cls):
         m[:3, :3] = 2.0 * R
     elif cls == "sim3small":
         m[:3, :3] = 0.125 * R
+    elif cls == "sim3milli":
+        m[:3, :3] = 2.0 ** -10 * R                  # a millimetre-to-metre sized similarity: valid
+    elif cls == "sim3kilo":
+        m[:3, :3] = 1024.0 * R
+    elif cls == "shearmilli":                       # sheared / non-uniformly scaled blocks at small and large overall scale
+        m[:3, :3] = 2.0 ** -10 * R
+        m[0, 0] += 2.0 ** -12
+    elif cls == "shearkilo":
+        m[:3, :3] = 1024.0 * R
+        m[0, 0] += 16.0
+    elif cls == "anisomilli":
+        m[:3, :3] = np.diag([1.0, 2.0, 1.0]) @ R * 2.0 ** -10
     elif cls == "reflection":
         m[:3, :3] = geom.o24_matrix((2, 1, 3))
     elif cls == "shear":
@@ -139,11 +151,13 @@ def exec_transform(job):
         enc, cls = c["enc"], c["cls"]
         if enc == "json":
             q = geom.quat_wxyz((2, -3, -1))
-            scale = {"se3": None, "sim3": 2.0, "sim3small": 0.125, "negscale": -2.0, "zeroscale": 0}[cls]
+            scale = {"se3": None, "sim3": 2.0, "sim3small": 0.125, "sim3milli": 2.0 ** -10, "sim3kilo": 1024.0, "negscale": -2.0, "zeroscale": 0}[cls]
             data = {"x": 1.5, "y": -2.25, "z": 1024.0, "qw": q[0], "qx": q[1], "qy": q[2], "qz": q[3]}
             if scale is not None:
                 data["scale"] = scale
             path = os.path.join(d, "t.json")
+            if n % 2:           # the keys of a JSON object have no order
+                data = dict(sorted(data.items(), reverse=bool(n % 4 == 1)))
             json.dump(data, open(path, "w"))
             expected = np.eye(4)
             expected[:3, :3] = (scale if scale is not None else 1.0) * geom.o24_matrix((2, -3, -1))
